@@ -183,7 +183,7 @@ fn e_irv<const D: usize, const P: usize>(e: &IndexRangeValidationError<D, P>) ->
         IndexRangeValidationError::InvalidDimensions(d) => l(vec![z(4), e_dims(d)]),
     }
 }
-fn e_strict<const D: usize, const P: usize>(e: &StrictIndexRangeValidationError<D, P>) -> Sx {
+pub fn e_strict<const D: usize, const P: usize>(e: &StrictIndexRangeValidationError<D, P>) -> Sx {
     match e {
         StrictIndexRangeValidationError::OutsideShape { shape, index_range } => l(vec![
             z(2),
@@ -200,7 +200,7 @@ pub enum Params {
     All(bool, Vec<Option<(usize, usize)>>),
 }
 
-fn params(s: &Sx) -> Option<Params> {
+pub fn params(s: &Sx) -> Option<Params> {
     let v = s.list()?;
     if v.len() != 3 {
         return None;
@@ -244,7 +244,7 @@ fn params(s: &Sx) -> Option<Params> {
 
 /// the conversions into IndexRange that must agree: IndexRange::new, (start, len), [start, len]
 /// and start..end (when the end does not overflow)
-fn index_range(start: usize, len: usize, salt: usize) -> IndexRange {
+pub fn index_range(start: usize, len: usize, salt: usize) -> IndexRange {
     let base = IndexRange::new(start, len);
     let tuple: IndexRange = (start, len).into();
     let array: IndexRange = [start, len].into();
@@ -356,7 +356,7 @@ where
     }
 }
 
-fn e_access<const D: usize>(e: &easy_ml::tensors::indexing::InvalidDimensionsError<D>) -> Sx {
+pub fn e_access<const D: usize>(e: &easy_ml::tensors::indexing::InvalidDimensionsError<D>) -> Sx {
     l(vec![z(6), shape_sx(&e.actual), names_sx(&e.requested)])
 }
 
